@@ -17,7 +17,7 @@ t0=time.time()
 solve.discharge(allobl)
 can=[o for o in allobl if o.kind=='CANARY']
 print('canaries',len(can),'unsat:',[o.name[-80:] for o in can if o.result=='unsat'])
-bad=[o for o in allobl if o.result!='unsat' and o.kind!='CANARY']
+bad=[o for o in allobl if o.result!='unsat' and o.kind not in ('CANARY','PROBE')]
 for o in bad: print("NOT ACCEPTED", o.result, o.time, o.name[30:260])
 print("total", len(allobl), "bad", len(bad), "solve %.1fs"%(time.time()-t0))
 for o in sorted(allobl,key=lambda o:-o.time)[:4]: print(o.time,o.backend,o.result,o.name[30:160])
